@@ -1,6 +1,7 @@
 from props import tu, run
 
 IOLIBS = ["-lpng", "-ljpeg", "-ltiffxx", "-ltiff", "-lz"]
+FSLIBS = ["-lboost_filesystem", "-lboost_system"]   # detail::filesystem::path is boost::filesystem::path in C++14 mode
 SRC = "harness/c12_io_roundtrip.cpp"
 DEPS = ["harness/c12_io_common.hpp"]
 
@@ -33,7 +34,10 @@ CFG = dict(
                 "read of the same bytes into a fresh image after every step. Delivery independence: the read-back of the "
                 "sweeps alternates between the written stream / file name and streams that deliver the bytes in pieces, "
                 "and per type a 30-180 KB file and two small ones are read through get areas refilled 1/2/7/64/4096/seeded "
-                "bytes at a time, a std::ifstream and a std::stringstream filled by write, against a one-piece istringstream. Observation of bounded executions only: sizes above the grid, other pixel types and other "
+                "bytes at a time, a std::ifstream and a std::stringstream filled by write, against a one-piece istringstream. "
+                "Names: write_view of a view and of an any_image_view through char const*, std::string, std::wstring, "
+                "filesystem::path, FILE*, std::ostream (TIFF: TIFF*) x {format tag, default info, non-default info with an "
+                "observable effect} must give the bytes of the std::string name, and the file must decode to the view. Observation of bounded executions only: sizes above the grid, other pixel types and other "
                 "library versions are not covered."),
     level_note=("trusts the harness's per-pixel comparison and g++ 12/ASan; the third-party codecs are the installed "
                 "system libraries; organisations that a writer rejects at compile time are covered by instantiation "
@@ -62,10 +66,13 @@ CFG = dict(
                  "float32 contents are finite values in [0,1], compared by bit pattern"],
     tus=[tu("c12_p%d" % k, SRC, "asan", extra=["-DC12_PART=%d" % k], libs=IOLIBS, deps=DEPS) for k, _, _, _ in PARTS]
         + [tu("c12_probe%d" % k, "harness/c12_probe.cpp", "asan", extra=["-DC12_PROBE=%d" % k], libs=IOLIBS, probe=name)
-           for k, name in PROBES],
+           for k, name in PROBES]
+        + [tu("c12_n%d" % k, "harness/c12_io_names.cpp", "asan", extra=["-DC12N_PART=%d" % k], libs=IOLIBS + FSLIBS, deps=DEPS) for k in range(6)],
     runs=[run("c12_p%d" % k, shards=sh, min_cases={"quick": fl, "thorough": fl}, max_restarts=200)
-          for k, _, sh, fl in PARTS],
-    require_obs=["delivery.frag1", "delivery.frag7", "delivery.frag4096", "delivery.frag-seeded", "delivery.ifstream", "delivery.stringstream-written",
+          for k, _, sh, fl in PARTS]
+         + [run("c12_n%d" % k, shards=2, min_cases={"quick": 100, "thorough": 100}, max_restarts=200) for k in range(6)],
+    require_obs=["names.char-const-ptr", "names.std-string", "names.std-wstring", "names.filesystem-path", "names.FILEptr", "names.ostream", "names.TIFFptr",
+                 "names.arg.tag", "names.arg.default-info", "names.arg.nondefault-info", "names.view", "names.any_image_view", "delivery.frag1", "delivery.frag7", "delivery.frag4096", "delivery.frag-seeded", "delivery.ifstream", "delivery.stringstream-written",
                  "delivery.file-over-64KB", "delivery.file-over-8KB", "reuse.read_image", "reuse.read_and_convert_image", "reuse.any_image", "reuse.read_view", "reuse.bits",
                  "reuse.order.shrinking", "reuse.order.growing", "reuse.order.equal", "reuse.order.mixed", "sink.ostream", "sink.FILEptr", "sink.filename", "org.planar", "org.planar-stepped", "org.subsampled",
                  "org.raw-padded", "org.rot90", "org.bits.subview", "org.bits.subsampled", "tiffcfg.tile16-lzw",
